@@ -200,6 +200,8 @@ NOVAL = object()
 def const_val(t):
     if isinstance(t, T) and t.op == 'const':
         return t.args[0]
+    if isinstance(t, T) and t.op == 'ref' and isinstance(t.args[0], Lib) and t.args[0].dotted == 'numpy.newaxis':
+        return None
     if isinstance(t, T) and t.op == 'tuple' and all(isinstance(x, T) and x.op == 'const' for x in t.args[0]):
         return tuple(x.args[0] for x in t.args[0])
     return NOVAL
@@ -326,4 +328,52 @@ def mult_factors(t):
             acc.append(x)
 
     rec(t, None)
+    return out
+
+
+SHAPE_ATTRS = ('shape', 'ndim', 'dtype', 'size')
+
+
+def data_terms(t, seen=None, into_mu=True):
+    """like walk_terms but does not descend into shape-only uses (x.shape, x.ndim, x.dtype, len(x))"""
+    seen = seen if seen is not None else set()
+    stack = [t]
+    while stack:
+        x = stack.pop()
+        if not isinstance(x, T) or x.id in seen:
+            continue
+        seen.add(x.id)
+        if x.op == 'attr' and x.args[1] in SHAPE_ATTRS:
+            continue
+        if x.op == 'call' and x.args[0].op == 'ref' and x.args[0].args[0] == ('builtin', 'len'):
+            continue
+        yield x
+        for a in x.args:
+            if isinstance(a, T):
+                stack.append(a)
+            elif isinstance(a, tuple):
+                for y in a:
+                    if isinstance(y, T):
+                        stack.append(y)
+                    elif isinstance(y, tuple):
+                        stack.extend(z for z in y if isinstance(z, T))
+        if x.op == 'mu' and into_mu and x.next is not None:
+            stack.append(x.next)
+
+
+def data_derives(t, pname):
+    """does the *value* of t depend on parameter pname (shape-only uses do not count)?"""
+    return t is not None and any(x.op == 'param' and x.args[0] == pname for x in data_terms(t))
+
+
+def ret_alts(graph):
+    """distinct non-raising return alternatives of a function graph"""
+    out, seen = [], set()
+    for x in unwrap_gamma(graph.ret):
+        if isinstance(x, T) and x.op == 'raise':
+            continue
+        if id(x) in seen:
+            continue
+        seen.add(id(x))
+        out.append(x)
     return out
